@@ -1,4 +1,12 @@
 ---------------------------- MODULE Gen_Pivot ----------------------------
 EXTENDS Pivot, Json
 Emit == (Len(hist) = MaxOps) => PrintT(<<"BEHAVIOUR", ToJson(hist)>>)
+(* a restart in the middle: a forest is built first (three or four steps that register and link), then the restart, then three more steps *)
+Building == \/ \E a \in Agents : Register(a)
+            \/ \E p, c \in Agents : (p # c /\ Connect(p, c))
+RestartNext == /\ Len(hist) < MaxOps
+               /\ \/ (Len(hist) < 4 /\ Building)
+                  \/ (Len(hist) \in {3, 4} /\ Restart /\ \A i \in 1..Len(hist) : hist[i].op # "Restart")
+                  \/ ((\E i \in 1..Len(hist) : hist[i].op = "Restart") /\ Next)
+RestartSpec == Init /\ [][RestartNext]_vars
 =============================================================================
